@@ -68,7 +68,13 @@ Inductive case : Type :=
 (* linearSearch.Process(limit) under GOMAXPROCS = cf with a predicate that
    rejects everything: per goroutine (ordered by first value, idle ones last)
    the register values offered to check(), starting from register [reg] *)
-| CLin (limit cf reg : Z) (offered : list (list Z)).
+| CLin (limit cf reg : Z) (offered : list (list Z))
+(* combinatorialSearch.Process(limit) under GOMAXPROCS = cf with a predicate that
+   rejects everything, starting from register [reg]: per init() call whose
+   (buffer, context) pair reached check(), ordered by the first candidate
+   (number of flipped bits, then the sorted bit list), a summary of the registers
+   offered with that pair: how many, the first, the last, their sum mod 2^64 *)
+| CComb (limit cf reg : Z) (offered : list (Z * Z * Z * Z)).
 
 Fixpoint index_of (x : nat) (l : list nat) (i : nat) : option nat :=
   match l with
@@ -111,6 +117,14 @@ Definition fres_eqb (a b : fres) : bool :=
 Definition model_outcomes (cf : Z) (st : settings) (log : list tmeas) (target : term) : list fres :=
   outcomes term term_eqb Init Ext DataH st log target cf.
 
+Definition ctx_summary (l : list Z) : Z * Z * Z * Z :=
+  (Z.of_nat (length l), hd 0 l, last l 0, wrap64 (fold_left Z.add l 0)).
+
+Definition summary_eqb (a b : Z * Z * Z * Z) : bool :=
+  let '(n, f, l, s) := a in
+  let '(n', f', l', s') := b in
+  (n =? n') && (f =? f') && (l =? l') && (s =? s').
+
 Definition check (c : case) : bool :=
   match c with
   | CRun cf st alg cmds target r =>
@@ -135,6 +149,9 @@ Definition check (c : case) : bool :=
   | CLin limit cf reg offered =>
       list_eqb zlist_eqb offered
         (map (fun se => map (fun d => wrap64 (reg - d)) (block_decs se)) (lin_blocks limit cf))
+  | CComb limit cf reg offered =>
+      list_eqb summary_eqb offered
+        (map ctx_summary (comb_offered cf reg (comb_maxd (mkSettings 0 0 true limit 0))))
   end.
 
 Definition mismatches := mismatches_by check.
